@@ -57,6 +57,14 @@ def _is_cardillo(o):
     return type(o).__module__.split(".")[0] == "cardillo"
 
 
+def _krepr(k):
+    """printable form of a cache key of any type (hashkey tuples, plain tuples, scalars)"""
+    try:
+        return repr(tuple(k))
+    except TypeError:
+        return repr(k)
+
+
 def discover(root, max_depth=6):
     """returns (caches: list[(path, cache)], arrays: list[(path, ndarray)], lru: list[func])"""
     import cachetools
@@ -155,7 +163,7 @@ def canon(world):
     for path, c in caches:
         h.update(path.encode())
         for k in cache_order(c):
-            h.update(repr(tuple(k)).encode())
+            h.update(_krepr(k).encode())
             _dig(h, cachetools.Cache.__getitem__(c, k))  # base-class read: does not touch the LRU order
     h.update(b"|ref|")
     for path, a in arrays:
@@ -178,7 +186,7 @@ def refdigest(world):
 
 def cache_sig(world):
     caches, _, _ = world.disc()
-    return tuple((p, frozenset(repr(tuple(k)) for k in cache_order(c))) for p, c in caches)
+    return tuple((p, frozenset(_krepr(k) for k in cache_order(c))) for p, c in caches)
 
 
 def flatten(r, out=None):
@@ -301,6 +309,11 @@ RB_Q = {
     "qP": np.array([0.3, 0.0, -1.2, 1.17, 0.0, -0.8, -0.39]),
     "qf": np.array([1.0, 0.0, -2.0, 1.0, 1.0, 0.0, -1.0]),
 }
+# arguments that differ only in components -1.0 <-> -2.0: in CPython hash(-1.0) == hash(-2.0) == -2, so a cache that compares
+# hash VALUES instead of keys confuses them (seeded C26-h)
+RB_Q["qh"] = np.array([1.0, 0.0, -1.0, 1.0, 1.0, 0.0, -1.0])
+RB_Q["qh2"] = np.array([1.0, 0.0, -2.0, 1.0, 1.0, 0.0, -1.0])
+RB_Q["qh3"] = np.array([1.0, 0.0, -1.0, 1.0, 1.0, 0.0, -2.0])
 RB_Q["qa_nz"] = _negzero(RB_Q["qa"])
 RB_Q["qi"] = RB_Q["qf"].astype(int)
 RB_U = {
@@ -309,6 +322,9 @@ RB_U = {
     "uc": np.array([0.4, 0.2, 0.0, 0.9, 0.0, -1.1]),
     "uf": np.array([1.0, 0.0, -1.0, 2.0, 1.0, 0.0]),
 }
+RB_U["uh"] = np.array([1.0, 0.0, -1.0, 2.0, -1.0, 0.0])
+RB_U["uh2"] = np.array([1.0, 0.0, -2.0, 2.0, -1.0, 0.0])
+RB_U["uh3"] = np.array([1.0, 0.0, -1.0, 2.0, -2.0, 0.0])
 RB_U["ua_nz"] = _negzero(RB_U["ua"])
 RB_U["ui"] = RB_U["uf"].astype(int)
 RB_B = {
@@ -318,9 +334,11 @@ RB_B = {
     "b2": np.array([0.2, 0.3, -0.5]),
     "bf": np.array([1.0, 0.0, -1.0]),
 }
+RB_B["bh"] = np.array([-1.0, 0.0, 0.5])
+RB_B["bh2"] = np.array([-2.0, 0.0, 0.5])
 RB_B["b1_nz"] = _negzero(RB_B["b1"])
 RB_B["bi"] = RB_B["bf"].astype(int)
-RB_T = {"t0": 0.0, "t0n": -0.0, "t0i": 0, "t1": 1.0, "t1i": 1, "tT": True}
+RB_T = {"t0": 0.0, "t0n": -0.0, "t0i": 0, "t1": 1.0, "t1i": 1, "tT": True, "tm1": -1.0, "tm2": -2.0}
 RB_UD = np.array([0.3, -0.2, 0.5, 0.1, 0.7, -0.4])
 
 RB_VARIANTS = {
@@ -328,6 +346,7 @@ RB_VARIANTS = {
     "key": dict(base=("t0", "qa", "ua", "b1"), T=["t1"], Q=["qr", "qP"], U=["ub", "uc"], Bs=["b2", "Bdef"], ops=["deepcopy"]),
     "zero": dict(base=("t0", "qa", "ua", "b1"), T=["t0n", "t0i"], Q=["qa_nz"], U=["ua_nz"], Bs=["b1_nz", "Bdef", "B0"], ops=[]),
     "int": dict(base=("t1", "qf", "uf", "bf"), T=["t1i", "tT"], Q=["qi"], U=["ui"], Bs=["bi"], ops=[]),
+    "hash": dict(base=("tm1", "qh", "uh", "bh"), T=["tm2"], Q=["qh2", "qh3"], U=["uh2", "uh3"], Bs=["bh2"], ops=[]),
     "mut": dict(base=("t0", "qa", "ua", "b1"), T=[], Q=["M", "qP"], U=[], Bs=["Bdef"],
                 ops=["setM:qa", "setM:qP", "stepcb:M", "deepcopy"]),
 }
